@@ -175,7 +175,11 @@ CHECKS = {
              "frames exactly as they were; in the specification every object is destroyed exactly once. Tie: skeleton "
              "programs rendered to Cb (constructors/destructors/defers print tags): stdout must equal the specification "
              "trace; every callee body of <= 2 statements to depth 1 called from 3 cleanup-owning sites (exhaustive in "
-             "thorough, sampled 1/3 in quick) plus random skeletons to depth 4 with up to 3 functions.",
+             "thorough, sampled 1/3 in quick) plus random skeletons to depth 4 with up to 3 functions. Added later: every skeleton "
+             "is rendered a second time with compound objects (own destructor + two value members with destructors, or members "
+             "only); CbProps/C06Compound.lean proves that the expected trace of that rendering (expand) is exactly the visible "
+             "trace of the skeleton in which each compound object is written as members-first-then-object, and that each "
+             "member is destroyed as often as its object is constructed.",
         note="The model was written against the repaired tree (fix c0bbf6e); on the pinned tree the same check reports the "
              "caller-object destruction and the late defer with concrete skeletons. Recursion, cleanup inside async tasks "
              "and the position of the return expression's evaluation are not covered.",
